@@ -222,3 +222,12 @@ for FullSync<'static, ItemType, BUFFER_SIZE, MAX_STREAMS> {
         self.streams_manager.name()
     }
 }
+
+#[cfg(feature = "verif")]
+impl<'a, ItemType: Send + Sync + Debug + Default, const BUFFER_SIZE: usize, const MAX_STREAMS: usize>
+crate::verif::VerifState for FullSync<'a, ItemType, BUFFER_SIZE, MAX_STREAMS> {
+    fn verif_state(&self, out: &mut Vec<u64>) {
+        self.streams_manager.verif_state(out);
+        self.container.verif_state(out);
+    }
+}
